@@ -187,6 +187,7 @@ func runWrap(r *common.Run, api byte, shape string, class string) {
 		obs = fmt.Sprintf("err=%d handed=%d", b2i(out.err != nil), b2i(handed))
 	case <-time.After(watchdog + time.Second):
 		obs = "err=? handed=? STALL"
+		r.Hist["wrap-stall"]++
 		r.Fail("outcome", "helper-does-not-return", lines, "the call did not return although its reply arrived")
 	}
 	// liveness probe: the next stanza reaches the handler, or Serve has returned because the rest
@@ -199,6 +200,7 @@ func runWrap(r *common.Run, api byte, shape string, class string) {
 		obs += " probe=dead"
 	case <-time.After(watchdog):
 		obs += " probe=stall"
+		r.Hist["wrap-stall"]++
 		r.Fail("serve-continues", "serve-stalled-after-helper:"+string(api), lines, "after the helper returned (and the caller closed what it was given) a further stanza does not reach the handler: the response was never closed: "+obs)
 	}
 	r.Line(line, obs)
@@ -220,8 +222,8 @@ func runWraps(r *common.Run) {
 	n := 0
 	for _, api := range wrapAPIs {
 		for _, sh := range wrapShapes() {
-			if len(r.Failures) >= 60 {
-				return
+			if len(r.Failures) >= 60 || r.Hist["wrap-stall"] >= 6 {
+				return // a broken tree costs a watchdog per case
 			}
 			r.Mark("case wrap %d", n)
 			n++
